@@ -33,7 +33,7 @@ def plot_case(draw):
     g = draw(gen.geom(ndim=2, nmin=1, nmax=6, exps=(-9, 3), big_offsets=False, tol=False, units=False))
     g["units"] = [draw(st.sampled_from(["m", "m", "s", "T"])) for _ in range(2)] if draw(st.booleans()) else None
     k = draw(st.integers(1, 3))
-    kind = draw(st.sampled_from(["scalar", "contour", "lightness", "mpl"] if k == 1 else ["vector", "vector", "mpl", "lightness"]))
+    kind = draw(st.sampled_from(["scalar", "contour", "lightness", "mpl"] if k == 1 else ["vector", "vector", "mpl", "lightness", "lightness"]))
     aux_n = draw(st.sampled_from(["same", "same", "swapped", "other"]))
     return {"g": g, "k": k, "kind": kind, "vdims": draw(gen.vdims_strategy(k)), "perm": list(draw(st.permutations(range(3)))),
             "use_vdims_arg": draw(st.booleans()), "seed": draw(st.integers(0, 2**31)), "mask": draw(gen.mask_spec(2)),
@@ -139,6 +139,22 @@ def check_image(im, lat, values, drawn, mult, what):
                 raise Violation(f"{what}-hidden-cells", f"cell {(i, j)}: drawn={not hidden}, expected drawn={bool(drawn[i, j])}")
             if drawn[i, j] and values is not None and not np.isclose(float(pix), values[i, j], rtol=1e-12, atol=0):
                 raise Violation(f"{what}-pixel-value", f"pixel at the centre of cell {(i, j)} shows {float(pix)}, field holds {values[i, j]}")
+
+
+def _in_drawn_part(drawn, qi, qj, i, j):
+    """matplotlib contours a quad of four cell centres completely if all four are drawn, and only the triangle of the
+    three drawn ones if exactly one is hidden (corner masking); nothing otherwise"""
+    corners = [(qi, qj), (qi + 1, qj), (qi + 1, qj + 1), (qi, qj + 1)]
+    ok = [c for c in corners if drawn[c]]
+    if len(ok) == 4:
+        return True
+    if len(ok) < 3:
+        return False
+    (x1, y1), (x2, y2), (x3, y3) = ok
+    det = (y2 - y3) * (x1 - x3) + (x3 - x2) * (y1 - y3)
+    l1 = ((y2 - y3) * (i - x3) + (x3 - x2) * (j - y3)) / det
+    l2 = ((y3 - y1) * (i - x3) + (x1 - x3) * (j - y3)) / det
+    return min(l1, l2, 1 - l1 - l2) >= -1e-6
 
 
 def expected_mult(lat, case):
@@ -283,6 +299,46 @@ def check_plot(case):
                 vis = rgba[..., 3].T > 0
                 if not np.array_equal(vis, drawn):
                     raise Violation("lightness-hidden-cells", f"{int(np.sum(vis != drawn))} cells")
+                # drawn cells are opaque, hidden ones fully transparent; colours are valid RGB
+                a = rgba[..., 3].T
+                require(bool(np.all(a[drawn] == 1.0)) and bool(np.all(a[~drawn] == 0.0)), "lightness-alpha",
+                        f"alpha values {np.unique(a)}")
+                require(bool(np.all((rgba[..., :3] >= 0) & (rgba[..., :3] <= 1))), "lightness-rgb-range")
+                if k in (2, 3) and 0 in comp_axis and 1 in comp_axis:
+                    # "HSV to show in-plane angle and lightness for out-of-plane (3d) or norm (2d)": hue = angle of the
+                    # components mapped to the two plot axes, lightness monotone in the out-of-plane component / norm /
+                    # lightness field, spanning the whole range
+                    import colorsys
+
+                    ang = np.arctan2(arr[..., comp_axis[1]], arr[..., comp_axis[0]]) % (2 * np.pi)
+                    if case["aux"] == "lightness" and case["aux_n"] == "same":
+                        lq = np.asarray(aux.array[..., 0], dtype=float)
+                    elif case["aux"] == "lightness":
+                        lq = None
+                    elif k == 3:
+                        third = [c for c in range(3) if c not in (comp_axis[0], comp_axis[1])][0]
+                        lq = arr[..., third].astype(float)
+                    else:
+                        lq = np.linalg.norm(arr.astype(float), axis=-1)
+                    hl = np.array([[colorsys.rgb_to_hls(*rgba[j, i, :3]) for j in range(n[1])] for i in range(n[0])])
+                    hue, lig = hl[..., 0], hl[..., 1]
+                    inplane = np.hypot(arr[..., comp_axis[0]], arr[..., comp_axis[1]]) > 0
+                    ok_h = drawn & inplane & (lig > 0.02) & (lig < 0.98)
+                    dh = np.abs(((hue - ang / (2 * np.pi)) + 0.5) % 1.0 - 0.5)
+                    if ok_h.any() and np.max(dh[ok_h]) > 1e-6:
+                        i = tuple(np.argwhere(ok_h & (dh > 1e-6))[0])
+                        raise Violation("lightness-hue", f"cell {i}: hue {hue[i]:.6f} but in-plane angle/2pi = "
+                                                         f"{ang[i] / (2 * np.pi):.6f}")
+                    if lq is not None and not case.get("clim"):
+                        # the filter hides cells but every cell of the lightness quantity takes part in the scaling
+                        lo, hi = float(lq.min()), float(lq.max())
+                        if hi > lo:
+                            want = (lq - lo) / (hi - lo)
+                            if drawn.any() and np.max(np.abs(lig[drawn] - want[drawn])) > 1e-6:
+                                i = tuple(np.argwhere(drawn & (np.abs(lig - want) > 1e-6))[0])
+                                raise Violation("lightness-value", f"cell {i}: lightness {lig[i]:.6f}, expected "
+                                                                   f"{want[i]:.6f} (quantity {lq[i]} in [{lo}, {hi}])")
+                    tag("lightness-colours-checked")
         if kind == "vector" or (kind == "mpl" and k in (2, 3)):
             require(len(quivers) == 1, "quiver-count", f"{len(quivers)}")
             q = quivers[0]
@@ -333,6 +389,15 @@ def check_plot(case):
                     nverts += 1
                     if abs(val - level) > 1e-6 * (abs(lin[0]) + abs(lin[1])) * max(n):
                         raise Violation("contour-geometry", f"vertex ({x}, {y}) of level {level}: field value there is {val}")
+                    # hidden cells are not drawn: a contour runs only through quads of cell centres that are all drawn
+                    if not ambiguous.any():
+                        quads = [(qi, qj) for qi in {int(np.floor(i - 1e-9)), int(np.floor(i + 1e-9))}
+                                 for qj in {int(np.floor(j - 1e-9)), int(np.floor(j + 1e-9))}
+                                 if 0 <= qi < n[0] - 1 and 0 <= qj < n[1] - 1]
+                        if quads and not any(_in_drawn_part(drawn, qi, qj, i, j) for qi, qj in quads):
+                            raise Violation("contour-through-hidden-cells",
+                                            f"vertex at cell coordinates ({i:.3f}, {j:.3f}) lies between cells that are "
+                                            f"invalid or filtered out")
             tag("contour-vertices" if nverts else "contour-empty")
     finally:
         plt.close(fig)
